@@ -14,6 +14,7 @@ import (
 	"errors"
 	"fmt"
 	"io"
+	"strconv"
 	"strings"
 	"sync"
 	"unicode"
@@ -400,6 +401,17 @@ func (l *lexer) Error(s string) {
 		s = s[15:]
 	}
 	l.err = ArithExprError{Msg: s}
+}
+
+// set assigns n to the variable unless the evaluation has failed: the value
+// would have been computed from operands that do not exist.
+func (l *lexer) set(name string, n int) {
+	l.mu.Lock()
+	failed := l.err != nil
+	l.mu.Unlock()
+	if !failed {
+		l.env.Set(name, strconv.Itoa(n))
+	}
 }
 
 // error reports a character that does not begin a token. It is only called
